@@ -367,7 +367,8 @@ pub fn explore_input(rep: &mut Report, input: &str, ctor: &'static str, base: us
                     // C14: fails exactly when the function finds nothing, with the documented kind
                     match &m.res {
                         Err(k) => {
-                            if *k != kind_name(e.kind()) {
+                            // the statement names the kind only for split / rsplit ("followed by a split-exhausted error")
+                            if matches!(op, Op::Split(_) | Op::RSplit(_)) && *k != kind_name(e.kind()) {
                                 ex.viol("C14", &tr2, "error kind", k.clone(), kind_name(e.kind()));
                             }
                         }
